@@ -485,3 +485,20 @@ Proof.
   { unfold hashed_args. rewrite !filter_app. cbn [filter]. rewrite E. reflexivity. }
   unfold arg_string, arg_pieces, ordered_args. rewrite G. reflexivity.
 Qed.
+
+(* ------------------------------------------------------------------ the sysroot libraries *)
+
+(* every `*.so` entry of <sysroot>/lib that is a regular file OR a symbolic link to one is hashed, and nothing else *)
+Theorem sysroot_libs_complete : forall libdir entries f,
+  In f (sysroot_libs libdir entries) <->
+  exists e, In e entries /\ resolves_to_file (snd e) = true /\ extension_is (bs "so") (fst e) = true /\
+            f = path_join libdir (fst e).
+Proof.
+  intros libdir entries f. unfold sysroot_libs, sort_paths. split.
+  - intro H. eapply Permutation_in in H; [|apply stable_sort_perm'].
+    apply in_map_iff in H as (e & Ef & He). apply filter_In in He as [He Hs].
+    unfold is_shlib in Hs. apply andb_true_iff in Hs as [H1 H2]. exists e. auto.
+  - intros (e & He & H1 & H2 & ->). eapply Permutation_in; [apply Permutation_sym, stable_sort_perm'|].
+    apply in_map_iff. exists e. split; [reflexivity|]. apply filter_In. split; [exact He|].
+    unfold is_shlib. rewrite H1, H2. reflexivity.
+Qed.
